@@ -235,6 +235,14 @@ def _topologies():
     g.output(a)
   add('intermediate_is_output', mid_output)
 
+  def const_output(mb, g):
+    # a constant returned directly from the signature next to a computed
+    # output (anchor boxes, lookup tables)
+    x = g.input('x', (1, 2))
+    g.output(g.fc(x, 'y'))
+    g.output(g.const('anchors', np.array([[0.5, -1.5, 2.0]], np.float32)))
+  add('constant_is_output', const_output)
+
   def mid_output_first(mb, g):
     x = g.input('x', (1, 2))
     a = g.fc(x, 'fc_out')
@@ -767,6 +775,24 @@ def concrete_qsvs(model, stats):
     qsvs[name] = {'min': np.full(shp, mn, np.float32),
                   'max': np.full(shp, mx, np.float32)}
   return qsvs
+
+
+def variant_model(model_bytes):
+  """Same graph, tensor names, shapes, buffer indices - other float weights
+  (a second checkpoint of the same architecture)."""
+  m = flatbuffer_utils.read_model_from_bytearray(bytearray(model_bytes))
+  done = set()
+  for sg in m.subgraphs:
+    for t in sg.tensors:
+      b = m.buffers[t.buffer]
+      if t.type != 0 or b.data is None or len(b.data) == 0 or \
+          t.buffer in done:
+        continue
+      done.add(t.buffer)
+      a = np.frombuffer(bytes(bytearray(b.data)), dtype=np.float32)
+      a = (a * np.float32(3.0) + np.float32(0.25)).astype(np.float32)
+      b.data = np.frombuffer(a.tobytes(), dtype=np.uint8)
+  return bytes(flatbuffer_utils.convert_object_to_bytearray(m))
 
 
 def model_bytes_of(skel, tier='thorough'):
